@@ -1136,20 +1136,23 @@ class LogixDriver(CIPDriver):
                 bit = tag_data.get("bit")
                 data_type = tag_data["tag_info"]["data_type_name"]
                 if bit is not None and tag_data["bool_elements"] is None:
-                    if tag_data["plc_tag"] not in bit_writes:
+                    try:
+                        if tag_data["plc_tag"] not in bit_writes:
 
-                        request = ReadModifyWriteRequestPacket(
-                            self._sequence,
-                            tag_data["plc_tag"],
-                            tag_data["tag_info"],
-                            -1 * (1 + len(bit_writes)),
-                            self._cfg["use_instance_ids"],
-                        )
-                        bit_writes[tag_data["plc_tag"]] = request
-                    else:
-                        request = bit_writes[tag_data["plc_tag"]]
+                            request = ReadModifyWriteRequestPacket(
+                                self._sequence,
+                                tag_data["plc_tag"],
+                                tag_data["tag_info"],
+                                -1 * (1 + len(bit_writes)),
+                                self._cfg["use_instance_ids"],
+                            )
+                            bit_writes[tag_data["plc_tag"]] = request
+                        else:
+                            request = bit_writes[tag_data["plc_tag"]]
 
-                    request.set_bit(bit, tag_data["value"], tag_data["request_id"])
+                        request.set_bit(bit, tag_data["value"], tag_data["request_id"])
+                    except Exception as err:  # e.g. a bit of a tag that is not an integer
+                        tag_data["error"] = f"Invalid Tag Request - {err!r}"
                     continue
 
                 try:
@@ -1158,16 +1161,20 @@ class LogixDriver(CIPDriver):
                     tag_data["error"] = f"Error encoding value - {err!r}"
                     continue
 
-                request = WriteTagRequestPacket(
-                    self._sequence,
-                    tag_data["plc_tag"],
-                    tag_data["elements"],
-                    tag_data["tag_info"],
-                    request_id,
-                    self._cfg["use_instance_ids"],
-                    tag_data["write_value"],
-                )
-                request.build_message()
+                try:
+                    request = WriteTagRequestPacket(
+                        self._sequence,
+                        tag_data["plc_tag"],
+                        tag_data["elements"],
+                        tag_data["tag_info"],
+                        request_id,
+                        self._cfg["use_instance_ids"],
+                        tag_data["write_value"],
+                    )
+                    request.build_message()
+                except Exception as err:  # e.g. an index or element count that cannot be encoded
+                    tag_data["error"] = f"Invalid Tag Request - {err!r}"
+                    continue
                 request._msg_setup = False
 
                 req_size = len(request.message)
@@ -1239,7 +1246,7 @@ class LogixDriver(CIPDriver):
                     request = WriteTagFragmentedRequestPacket.from_request(self._sequence, request)
 
             return request
-        except RequestError as err:
+        except Exception as err:  # RequestError, or an index / count / type that cannot be encoded
             parsed_tag["error"] = f"Invalid Tag Request - {err!r}"
             self.__log.exception(f'Failed to build request for {parsed_tag["plc_tag"]} - skipping')
             return None
